@@ -12,9 +12,9 @@ func init() {
 }
 
 func runC16(c *core.Check) {
-	c.Rule = "every value of the GoHcl.tla struct family reachable in <= MaxSteps field assignments (strings from a 14-entry table of escape-relevant strings and awkward map keys: empty, spaces, quotes, newline, ${ and %{ sequences, combining marks, backslash, for, null, non-identifiers; nil/non-nil pointers; maps and slices up to MaxSeq; labelled repeated blocks by value and by pointer, two nesting levels with two labels): EncodeIntoBody -> bytes -> ParseConfig -> DecodeBody reproduces the value, and the equivalent JSON document decodes (hclsimple) to the same value; plus every MC_Dec body decoded into each struct type without panic. Non-trivial = distinct encoded source"
+	c.Rule = "every value of the GoHcl.tla struct family reachable in <= MaxSteps field assignments (strings from a 15-entry table of escape-relevant strings and awkward map keys: empty, spaces, quotes, newline, ${ and %{ sequences, combining marks, backslash, for, null, non-identifiers, the JSON comment name //; nil/non-nil pointers; maps and slices up to MaxSeq; labelled repeated blocks by value and by pointer, two nesting levels with two labels): EncodeIntoBody -> bytes -> ParseConfig -> DecodeBody reproduces the value, and the equivalent JSON document decodes (hclsimple) to the same value; plus every MC_Dec body decoded into each struct type without panic. Non-trivial = distinct encoded source"
 	c.Assumes = []string{"equality modulo nil-vs-empty slices/maps and NFC normalisation of strings (HCL cannot represent the difference)"}
-	cfgs := []map[string]string{{"NStr": "14", "MaxSeq": "2", "MaxSteps": "2"}}
+	cfgs := []map[string]string{{"NStr": "15", "MaxSeq": "2", "MaxSteps": "2"}}
 	if c.Tier == "thorough" {
 		// three assignments over the first seven strings (14 strings x 3 steps is 25 M+ values)
 		cfgs = append(cfgs, map[string]string{"NStr": "7", "MaxSeq": "2", "MaxSteps": "3"})
